@@ -431,25 +431,47 @@ func c17r3(c *Check) {
 			sumCall = call
 		}
 	})
+	// the value reduced modulo the number of workers to index route.in
+	var hashVal ssa.Value
+	var hashAt ssa.Instruction
 	if writeCall == nil || sumCall == nil {
-		anchorFail("GrafanaNet.Dispatch: hasher Write/Sum32 not found")
-	}
-	kd := k.Of(writeCall.Call.Args[0])
-	c.Judge(kd == KName, "route.GrafanaNet.Dispatch hashes the name", c.At(writeCall), "the shard hash is fed with the metric name only", fmt.Sprintf("the shard hash is fed with a value of kind %s: points of one series can land on different workers (value/timestamp take part in the hash) and lose their order", kd))
-	// fresh hasher
-	fresh := false
-	if hc, ok := strip(writeCall.Call.Value).(*ssa.Call); ok && strings.HasPrefix(calleeName(hc.Common()), "hash/fnv.New") {
-		fresh = true
-	}
-	if !fresh {
-		// Reset dominating Write on the same value
+		// no hasher object: the shard may be computed by an inline FNV loop over the hashed bytes
+		// (in Dispatch or in a helper), which has no state that could survive the call
+		var src ssa.Value
 		allInstrs(fn, func(in ssa.Instruction) {
-			if call, ok := in.(*ssa.Call); ok && call.Call.IsInvoke() && call.Call.Method.Name() == "Reset" && call.Call.Value == writeCall.Call.Value && instrDominates(call, writeCall) {
-				fresh = true
+			bo, ok := in.(*ssa.BinOp)
+			if !ok || bo.Op != token.REM || src != nil {
+				return
+			}
+			if s, _, ok := inlineFNV(stripConv(bo.X)); ok {
+				src, hashVal, hashAt = s, bo.X, in
 			}
 		})
+		if src == nil {
+			anchorFail("GrafanaNet.Dispatch: neither a hasher's Write/Sum32 nor an inline FNV loop reduced modulo the number of workers found")
+		}
+		kd := k.Of(src)
+		c.Judge(kd == KName, "route.GrafanaNet.Dispatch hashes the name", c.At(hashAt), "the shard hash runs over the bytes of the metric name only", fmt.Sprintf("the shard hash is fed with a value of kind %s: points of one series can land on different workers (value/timestamp take part in the hash) and lose their order", kd))
+		c.Hold("route.GrafanaNet.Dispatch hasher is fresh per call", c.At(hashAt), "inline FNV loop: the accumulator starts from the offset basis in every call and is stepped by the hashed bytes only")
+	} else {
+		hashVal = sumCall
+		kd := k.Of(writeCall.Call.Args[0])
+		c.Judge(kd == KName, "route.GrafanaNet.Dispatch hashes the name", c.At(writeCall), "the shard hash is fed with the metric name only", fmt.Sprintf("the shard hash is fed with a value of kind %s: points of one series can land on different workers (value/timestamp take part in the hash) and lose their order", kd))
+		// fresh hasher
+		fresh := false
+		if hc, ok := strip(writeCall.Call.Value).(*ssa.Call); ok && strings.HasPrefix(calleeName(hc.Common()), "hash/fnv.New") {
+			fresh = true
+		}
+		if !fresh {
+			// Reset dominating Write on the same value
+			allInstrs(fn, func(in ssa.Instruction) {
+				if call, ok := in.(*ssa.Call); ok && call.Call.IsInvoke() && call.Call.Method.Name() == "Reset" && call.Call.Value == writeCall.Call.Value && instrDominates(call, writeCall) {
+					fresh = true
+				}
+			})
+		}
+		c.Judge(fresh && sumCall.Call.Value == writeCall.Call.Value, "route.GrafanaNet.Dispatch hasher is fresh per call", c.At(writeCall), "hasher created in this call (or reset before use); Sum32 taken from the same hasher", "the hasher is reused across calls without Reset: the shard depends on what was hashed before, so successive points of one series go to different workers")
 	}
-	c.Judge(fresh && sumCall.Call.Value == writeCall.Call.Value, "route.GrafanaNet.Dispatch hasher is fresh per call", c.At(writeCall), "hasher created in this call (or reset before use); Sum32 taken from the same hasher", "the hasher is reused across calls without Reset: the shard depends on what was hashed before, so successive points of one series go to different workers")
 	// index = Sum32 % Concurrency into route.in
 	okIdx := false
 	allInstrs(fn, func(in ssa.Instruction) {
@@ -474,13 +496,13 @@ func c17r3(c *Check) {
 			}
 		}
 		find(ia.Index, 0)
-		if rem != nil && rem.X == sumCall {
+		if rem != nil && rem.X == hashVal {
 			if _, names := fieldPath(stripConv(rem.Y)); len(names) > 0 && names[len(names)-1] == "Concurrency" {
 				okIdx = true
 			}
 		}
 	})
-	c.Judge(okIdx, "route.GrafanaNet.Dispatch shard = hash % Concurrency", c.AtFn(fn), "index into route.in is Sum32() % Cfg.Concurrency", "the worker is not selected as hash(name) modulo the number of workers")
+	c.Judge(okIdx, "route.GrafanaNet.Dispatch shard = hash % Concurrency", c.AtFn(fn), "index into route.in is hash(name) % Cfg.Concurrency", "the worker is not selected as hash(name) modulo the number of workers")
 	// one worker per channel
 	ctor := c.P.Func("route", "", "NewGrafanaNet")
 	loops := loopsOf(ctor)
